@@ -90,6 +90,31 @@ func (b *builder) buildChain(c *Case) z.ZogSchema {
 			}
 		}
 		return s
+	case "bool":
+		s := z.Bool()
+		for _, op := range c.Chain {
+			o := chainOpts(op)
+			switch op.Op {
+			case "t":
+				ntests++
+				s.EQ(op.N == 1)
+			case "tf":
+				s.TestFunc(tf(op), o...)
+			case "req":
+				if op.Msg != "" {
+					s.Required(z.Message(op.Msg))
+				} else {
+					s.Required()
+				}
+			case "opt":
+				s.Optional()
+			case "def":
+				s.Default(op.N == 1)
+			case "catch":
+				s.Catch(op.N == 1)
+			}
+		}
+		return s
 	case "int":
 		s := z.Int()
 		for _, op := range c.Chain {
@@ -162,6 +187,8 @@ func famChains(tw *traceWriter, r *rand.Rand, n int) {
 		var inputs []*Input
 		if cc.Schema.Ty == "str" {
 			inputs = []*Input{missing(), empty(), val(1), val(2), val(3), val(4)}
+		} else if cc.Schema.Ty == "bool" {
+			inputs = []*Input{missing(), val(0), val(1), sval(1), sval(0), bad()}
 		} else {
 			inputs = []*Input{missing(), val(0), val(1), val(2), val(3), sval(2), bad()}
 		}
